@@ -93,7 +93,11 @@ func (core *JApiCore) setPathVariablesToCatalog() *jerr.JApiError {
 					}
 				}
 				if b.Len() != 0 {
-					hi.SetPathVariables(b.Build())
+					pv, err := b.Build()
+					if err != nil {
+						return nil, core.pathVariablesError(pp, err)
+					}
+					hi.SetPathVariables(pv)
 				}
 			}
 			return v, nil
@@ -104,6 +108,24 @@ func (core *JApiCore) setPathVariablesToCatalog() *jerr.JApiError {
 	}
 
 	return nil
+}
+
+// pathVariablesError locates a failure to assemble the path variables of an interaction at
+// the Path directive that describes one of its parameters.
+func (core *JApiCore) pathVariablesError(pp []PathParameter, err error) *jerr.JApiError {
+	for i := range core.rawPathVariables {
+		if core.rawPathVariables[i].imitated {
+			continue
+		}
+		for _, q := range core.rawPathVariables[i].parameters {
+			for _, p := range pp {
+				if p == q {
+					return core.rawPathVariables[i].pathDirective.KeywordError(err.Error())
+				}
+			}
+		}
+	}
+	return core.japiError(err.Error(), 0)
 }
 
 func (core *JApiCore) checkPathSchema(s *jschema.JSchema) error {
